@@ -10,4 +10,5 @@ CONSTANTS
   Alpha = "B"
   MaxLen = 16
   TailLen = 0
+  DeepReps = {}
 INVARIANT Emit
